@@ -45,8 +45,9 @@ PIDS = [PID_DATA0, PID_DATA1, PID_DATA2, PID_MDATA]       # data_pid 0..3
 class TxHarness(Harness):
     domains = ("usb",)
 
-    def __init__(self, standalone=False):
+    def __init__(self, standalone=False, free_bits=8):
         super().__init__()
+        self.free_bits = free_bits
         from luna.gateware.usb.usb2.packet import USBDataPacketGenerator, USBDataPacketCRC
         self.standalone = standalone
         self.dut = g = USBDataPacketGenerator(standalone=standalone)
@@ -57,7 +58,14 @@ class TxHarness(Harness):
         # free choices
         self.want_start = self.inp("want_start", 1)
         self.want_zlp = self.inp("want_zlp", 1)
-        self.free_payload = self.inp("payload", 8)
+        if free_bits == 8:
+            self.free_payload = self.inp("payload", 8)
+        else:
+            # restricted data layer: `free_bits` low bits free per cycle, the upper bits one symbolic constant
+            lo = self.inp("payload", free_bits)
+            hi = self.inp("payload_hi", 8 - free_bits, const=True)
+            self.free_payload = Cat(lo, hi)
+            self.restrictions.append(f"payload bytes: low {free_bits} bit(s) free per byte, upper bits one symbolic constant")
         self.free_last = self.inp("last", 1)
         self.inp("tx_ready", signal=g.tx.ready)
         self.inp("data_pid", signal=g.data_pid)
@@ -71,8 +79,12 @@ class TxHarness(Harness):
         self.obs("tx_valid", g.tx.valid), self.obs("tx_data", g.tx.data), self.obs("stream_ready", g.stream.ready)
 
     def stimulus(self, rng, t, consts):
-        return dict(want_start=int(rng.random() < 0.4), want_zlp=int(rng.random() < 0.2), payload=rng.getrandbits(8),
-                    last=int(rng.random() < 0.3), tx_ready=int(rng.random() < 0.7), data_pid=rng.getrandbits(2))
+        d = dict(want_start=int(rng.random() < 0.4), want_zlp=int(rng.random() < 0.2),
+                 payload=rng.getrandbits(self.free_bits),
+                 last=int(rng.random() < 0.3), tx_ready=int(rng.random() < 0.7), data_pid=rng.getrandbits(2))
+        if "payload_hi" in consts:
+            d["payload_hi"] = consts["payload_hi"]
+        return d
 
     def elaborate(self, platform):
         m = Module()
